@@ -6,16 +6,17 @@
    proofs in Proofs/Device*.v.  `valid_op` = client commands are the nine targeted ones, dev_initial_connect happens once (HInit);
    `cfg_ok` = what the parser guarantees (login script exists: F14; blocks non-empty; formats %s/%%-only) + formatted send strings fit 64 KiB. *)
 
-(* OPEN *) (* C12_recovery (whole statement): "once the device behaves, every new request completes with ACT_ESUCCESS".  Proved instead:
-   C12_reconnect_attempted (the gate always reopens and connect is then called; on success login is the head, C10_login_first) and
-   C12_timeout_fails_queue / C12_keep_on_io_error (no failed state keeps actions).  Missing: a liveness argument over the script semantics
-   (C08_refines is open as well).  The pmsim monitor post-recovery-success searches for a counter-example on the implementation. *)
-(* OPEN *) (* C12_backoff over whole traces ("two consecutive EvConnect of one device with no client request in between are >= backoff apart"):
-   follows from C12_backoff_pass (the gate, last_retry := now, count) + C12_retry_fields_only_by_connect + C12_backoff_ge_1s by induction over
-   the op list; the induction itself is not mechanised.  The R-DEV monitor `backoff-spacing` evaluates exactly that trace property on the C. *)
+(* OPEN *) (* C12_recovery (whole statement): "once the device behaves, every new request completes with ACT_ESUCCESS" for ARBITRARY scripts.
+   Proved: C12_recovery_partial (below) for a login script and a client script consisting of ONE `expect` statement, no ping, no preprocess
+   method: not-connected + empty queue + open gate + a connect that succeeds -> connected, login is the head; the peer answers -> logged in;
+   a client action enqueued then completes with ACT_ESUCCESS.  Together with C12_reconnect_attempted (the gate always reopens and connect is
+   then called) and C12_timeout_fails_queue / C12_keep_on_io_error (no failed state keeps actions) there is no absorbing failed state in
+   device.c.  Missing for the whole statement: a symbolic-execution lemma over script positions (send / expect sequences, blocks), i.e.
+   C08_refines, which is open as well.  The pmsim monitor post-recovery-success searches for a counter-example on the implementation. *)
 From Coq Require Import List NArith ZArith Bool Lia.
 From PM Require Import Base.Bytes Base.Outcome Base.Dec Gen.GenConsts Gen.GenCbuf Model.ScriptAst Model.Enqueue Model.Script Model.Device
-  Model.DevHarness Proofs.DeviceProofs Proofs.DeviceStmt Proofs.DeviceInv Proofs.DeviceRun Proofs.DeviceTimer Proofs.DeviceLocal Proofs.DeviceThms.
+  Model.DevHarness Proofs.DeviceProofs Proofs.DeviceStmt Proofs.DeviceInv Proofs.DeviceRun Proofs.DeviceTimer Proofs.DeviceLocal Proofs.DeviceThms
+  Proofs.DeviceBackoff Proofs.DeviceRecover.
 Import ListNotations.
 Local Open Scope Z_scope.
 
@@ -114,6 +115,54 @@ Qed.
 Print Assumptions C12_reconnect_attempted.
 
 
+(* TRACE-LEVEL BACK-OFF, all histories.  conn_clocks k now ops outs = the clock values of the operations whose output contains a connect attempt
+   of device k; chain last rc ts = each attempt came no earlier than the previous one + backoff(number of attempts so far).  Over any list of
+   operations in which nothing is enqueued on device k (quiet: a client request queued on a not-connected device resets the count - the
+   documented way to expedite a reconnect), from any state that satisfies the invariant, starting from the device's own record of its
+   last attempt (dv_last_retry, dv_retry_count). *)
+Theorem C12_backoff_trace : forall (rmatch : text -> text -> option pmatch) (compress : list text -> text) (sc : bool) ops h h' outs k d p,
+  HInv compress h -> Forall valid_op ops -> Forall (quiet (edev_of d)) ops ->
+  run rmatch compress sc h ops = Ok (h', outs) -> nth_error (h_devs h) k = Some (d, p) ->
+  chain (dv_last_retry d) (dv_retry_count d) (conn_clocks k (h_now h) ops outs).
+Proof.
+  exact backoff_trace.
+Qed.
+Print Assumptions C12_backoff_trace.
+
+(* what a chain means for two consecutive attempts at clock values t1, t2: t2 - t1 >= backoff(count at t1) >= 1 s *)
+Theorem C12_backoff_spacing : forall ts last rc, 0 <= rc -> chain last rc ts ->
+  forall i t1 t2, nth_error ts i = Some t1 -> nth_error ts (S i) = Some t2 ->
+    t1 + backoff (rc + 1 + Z.of_nat i) <= t2 /\ 1000000 <= t2 - t1.
+Proof.
+  exact chain_spacing.
+Qed.
+Print Assumptions C12_backoff_spacing.
+
+(* RECOVERY (partial: single-`expect` login and client scripts, no ping, no preprocess method).  answers re b = the regex oracle matches `re`
+   on the bytes b the peer sends, up to their end; reads pin b = the descriptor is readable and delivers b.  Three passes: connect, login
+   answered, request answered. *)
+Theorem C12_recovery_partial : forall (rmatch : text -> text -> option pmatch) (compress : list text -> text) (sc : bool)
+    now1 now2 now3 d store tmo1 tmo2 tmo3 pin1 pin2 pin3 re re2 b b2 pl q client tele args,
+  DInv compress d -> dv_cstate d = DEV_NOT_CONNECTED -> dv_acts d = [] -> sd_from (dv d) = [] ->
+  (dv_retry_count d <= 0 \/ dv_last_retry d + backoff (dv_retry_count d) <= now1) ->
+  dv_ping_period d = 0 -> 0 < dv_timeout d ->
+  assoc_script PM_LOG_IN (dv_scripts d) = Some [Expect re] -> assoc_script (qa_com q) (dv_scripts d) = Some [Expect re2] ->
+  pi_plans pin1 = ConnNow :: pl ->
+  now2 < now1 + dv_timeout d -> reads pin2 b -> answers rmatch re b ->
+  reads pin3 b2 -> answers rmatch re2 b2 ->
+  exists d1 t1 d2 t2 e2 d2' d3 t3 e3,
+    post_poll_one rmatch compress sc now1 d store tmo1 pin1 = Ok (d1, store, t1, [EvConnect]) /\
+    post_poll_one rmatch compress sc now2 d1 store tmo2 pin2 = Ok (d2, store, t2, e2) /\
+    dv_cstate d2 = DEV_CONNECTED /\ dv_logged_in d2 = true /\ dv_acts d2 = [] /\
+    append_client_action d2 q client tele args = Ok d2' /\
+    post_poll_one rmatch compress sc now3 d2' store tmo3 pin3 = Ok (d3, store, t3, e3) /\
+    In (EvComplete client ACT_ESUCCESS []) e3 /\ dv_acts d3 = [] /\ dv_logged_in d3 = true /\
+    dv_retry_count d3 = dv_retry_count d + 1.
+Proof.
+  exact recovery_partial.
+Qed.
+Print Assumptions C12_recovery_partial.
+
 (* non-vacuity: a device with a login and an `on` script, run through a history with a time-out *)
 Definition ex_rmatch : text -> text -> option pmatch := fun _ _ => None.
 Definition ex_compress : list text -> text := fun _ => [].
@@ -134,3 +183,27 @@ Example C12_timeout_example :
 Proof. vm_compute. eexists _, _. repeat split. Qed.
 Example C12_backoff_table_example : map backoff [1; 2; 3; 7; 8; 100] = [1000000; 2000000; 4000000; 60000000; 60000000; 60000000].
 Proof. vm_compute. reflexivity. Qed.
+
+(* non-vacuity of C12_backoff_trace / C12_backoff_spacing: a device whose connects are refused is retried at 1 s, then 2 s, then 4 s spacing *)
+Example C12_backoff_trace_example :
+  exists h outs,
+    let ops := [HPlan 0 [ConnFail; ConnFail; ConnFail; ConnFail]; HNow 1000000; HPass; HNow 1500000; HPass; HNow 2000000; HPass; HNow 3999999; HPass; HNow 4000000; HPass;
+                HNow 7999999; HPass; HNow 8000000; HPass] in
+    run ex_rmatch ex_compress false ex_h0 ops = Ok (h, outs) /\
+    conn_clocks 0 0 ops outs = [1000000; 2000000; 4000000; 8000000].
+Proof. vm_compute. eexists _, _. split; reflexivity. Qed.
+
+(* non-vacuity of C12_recovery_partial: its hypotheses are satisfiable (a device with single-expect login / on scripts, an oracle that
+   matches "ok" at the end of the bytes) *)
+Definition ex_rm : text -> text -> option pmatch := fun re s => if text_eqb re s then Some [Some (O, length s)] else None.
+Definition ex_dev_r : device := mk_device (bslit "d0") [mkPlug (bslit "p1") (Some (bslit "n1"))] [(PM_LOG_IN, [Expect (bslit "ok")]); (PM_POWER_ON, [Expect (bslit "on")])] 5000000 0.
+Example C12_recovery_hyps :
+  answers ex_rm (bslit "ok") (bslit "ok") /\ answers ex_rm (bslit "on") (bslit "on") /\
+  reads (mkPassin false false false false true (Some (bslit "ok")) None true [] None) (bslit "ok") /\
+  assoc_script PM_LOG_IN (dv_scripts ex_dev_r) = Some [Expect (bslit "ok")] /\ dv_ping_period ex_dev_r = 0.
+Proof.
+  split; [|split; [|split; [|split; reflexivity]]].
+  - split; [discriminate|]. split; [apply Nat.leb_le; vm_compute; reflexivity|]. eexists _, _. split; vm_compute; reflexivity.
+  - split; [discriminate|]. split; [apply Nat.leb_le; vm_compute; reflexivity|]. eexists _, _. split; vm_compute; reflexivity.
+  - repeat split.
+Qed.
